@@ -60,7 +60,14 @@ class Obligation:
             for h in self.hyps:
                 for c in conjuncts(h):
                     have.add(self.canon(c))
-            return all(self.canon(g) in have for g in conjuncts(self.goal))
+            if all(self.canon(g) in have for g in conjuncts(self.goal)):
+                return True
+            # second pass modulo z3's simplifier (an equivalence-preserving rewriting: x + 0, double negations, ...)
+            have2 = set(have)
+            for h in self.hyps:
+                for c in conjuncts(z3.simplify(h)):
+                    have2.add(self.canon(c))
+            return all(self.canon(g) in have2 or self.canon(z3.simplify(g)) in have2 for g in conjuncts(self.goal))
         except Exception:   # noqa
             return False
 
@@ -1040,6 +1047,7 @@ class Engine:
         head.env[idx] = kvar
         head.assume(kvar >= 0, kvar <= desc.count, desc.count >= 0)
         desc.bind_head(self, s.target, head, kvar)
+        snap = self.heap_snapshot(head)
         for cl in spec.inv:
             head.assume(self.spec(cl, head))
         # body
@@ -1053,6 +1061,7 @@ class Engine:
                 e = o.st
                 e.env[idx] = kvar + 1
                 desc.bind_head(self, s.target, e, kvar + 1)
+                self.loop_frame_check(snap, e, spec, lab)
                 self.prove_all(e, spec.inv, f"{lab}/inv_preserved", "inv_preserved", s.lineno)
             elif o.kind == "break":
                 outs_final.append(Outcome("normal", o.st))
@@ -1079,6 +1088,7 @@ class Engine:
         head = st.clone()
         self.havoc(head, mods, s.body)
         self.havoc_heap(head, spec)
+        snap = self.heap_snapshot(head)
         for cl in spec.inv:
             head.assume(self.spec(cl, head))
         variant0 = self.spec(spec.variant, head) if spec.variant is not None else None
@@ -1095,6 +1105,7 @@ class Engine:
             for o in outs:
                 if o.kind in ("normal", "continue"):
                     e = o.st
+                    self.loop_frame_check(snap, e, spec, lab)
                     self.prove_all(e, spec.inv, f"{lab}/inv_preserved", "inv_preserved", s.lineno)
                     if variant0 is not None:
                         v1 = self.spec(spec.variant, e)
@@ -1112,6 +1123,12 @@ class Engine:
                 else:
                     outs_final.append(Outcome("normal", exit_st))
         return outs_final
+
+    def heap_snapshot(self, st):
+        return None
+
+    def loop_frame_check(self, snap, st, spec, lab):
+        pass
 
     def st_Break(self, s, st):
         return [Outcome("break", st, node=s)]
@@ -2206,6 +2223,10 @@ class Engine:
             v = A(0)
             if isinstance(v, Arr) and v.rank == 1:
                 return self.array_sum(v, st)
+            if isinstance(v, SList) and len(v.elems.cs) == 1 and v.elems.cs[0].sort().range() in (R, I):
+                # np.sum of a python list of numbers: the same prefix sum over the list's elements
+                dt = "f64" if v.elems.cs[0].sort().range() == R else "int"
+                return self.psum_fun(dt, st)(v.elems.cs[0], v.length)
             return NotImplemented
         if isinstance(e.func, ast.Attribute) and e.func.attr == "astype":
             v = self.ev(e.func.value, st, spec)
